@@ -37,7 +37,8 @@ PASSWORDS = {
     'hello': ('hello world', False),
 }
 
-REPLY_KINDS = ('OK', 'OKA', 'OKE', 'NO', 'AGAIN', 'MORE', 'UNL', 'BLAH')
+REPLY_KINDS = ('OK', 'OKA', 'OKS', 'OKE', 'NO', 'AGAIN', 'MORE', 'UNL', 'BLAH')
+ACCOUNT_KINDS = ('OKA', 'OKS')      # OK replies that carry an account (OKS: a shorter one without stamp suffix)
 TAG_KINDS = ('cur', 'old', 'bare', 'trunc', 'noid', 'junk', 'zz', 'wrongserial')
 MALFORMED_TAGS = ('bare', 'trunc', 'noid', 'junk', 'zz', 'wrongserial')
 
@@ -47,11 +48,21 @@ def account_for(i, svc):
 
 
 def reply_text(kind, i, svc):
+    """Text of a service reply.  A client entry may override texts per kind (CLIENTS[i]['replies'][kind]) - used by the
+    text-dimension enumerations of C05."""
+    ov = (CLIENTS.get(i) or {}).get('replies')
+    if ov and kind in ov:
+        return ov[kind]
     return {
-        'OK': 'OK', 'OKA': 'OK %s:7' % account_for(i, svc), 'OKE': 'OK ',
+        'OK': 'OK', 'OKA': 'OK %s:7' % account_for(i, svc), 'OKS': 'OK s%d' % (abs(i) % 10), 'OKE': 'OK ',
         'NO': 'NO go away %s from %s' % (i, svc), 'AGAIN': 'AGAIN try again %s' % i,
         'MORE': 'MORE say more %s' % i, 'UNL': None, 'BLAH': 'BLAH what',
     }[kind]
+
+
+def vouched_account(kind, i, svc):
+    """The account an OK reply vouches: the text after "OK ", cut at the first space and at 64 characters."""
+    return reply_text(kind, i, svc)[3:].split(' ')[0][:64]
 
 
 def idhex(i):
@@ -462,11 +473,11 @@ def step(w, M, ev, ctx_pre, new_serial, out_lines, addr_check=True):
             if inst.expired:
                 W.add('reply-after-timeout')
             c = CLIENTS[i]
-            if rk in ('OK', 'OKE', 'OKA'):
+            if rk in ('OK', 'OKE') or rk in ACCOUNT_KINDS:
                 inst = inst._replace(oksvc=inst.oksvc | {svc})
-            if rk == 'OKA':
+            if rk in ACCOUNT_KINDS:
                 if stype in LOGIN_TYPES:
-                    acct = account_for(i, svc) + ':7'
+                    acct = vouched_account(rk, i, svc)
                     if inst.stamp:
                         W.add('second-stamp')
                     inst = inst._replace(stamp=True, vouched=inst.vouched | {acct},
